@@ -7,6 +7,7 @@ import (
 	"encoding/binary"
 	"fmt"
 	"net"
+	"sync"
 	"sync/atomic"
 	"time"
 
@@ -62,6 +63,7 @@ type Server struct {
 
 // IPPool is a simple IP address pool for PPPoE clients
 type IPPool struct {
+	mu        sync.Mutex // guards available and allocated (the pool is shared by all sessions)
 	network   *net.IPNet
 	gateway   net.IP
 	available []net.IP
@@ -105,6 +107,14 @@ func NewIPPool(network string, gateway string) (*IPPool, error) {
 
 // Allocate allocates an IP for a session
 func (p *IPPool) Allocate(sessionID string) net.IP {
+	p.mu.Lock()
+	defer p.mu.Unlock()
+
+	// A session that already holds an address keeps it (a repeated request must
+	// not take a second address and orphan the first one)
+	if ip, ok := p.allocated[sessionID]; ok {
+		return ip
+	}
 	if len(p.available) == 0 {
 		return nil
 	}
@@ -116,6 +126,9 @@ func (p *IPPool) Allocate(sessionID string) net.IP {
 
 // Release releases an IP back to the pool
 func (p *IPPool) Release(sessionID string) {
+	p.mu.Lock()
+	defer p.mu.Unlock()
+
 	if ip, ok := p.allocated[sessionID]; ok {
 		delete(p.allocated, sessionID)
 		p.available = append(p.available, ip)
